@@ -11,7 +11,8 @@ NOT_DECIDED = [
     "the EINTR-with-elapsed-timeout arm of dispatch_events (returns Ok after before_sleep without before_handle_events): polling 3.x retries EINTR inside Poller::wait, a probe could not reach it; it lies on the error edge of the poll and is outside clause 3",
 ]
 EXPLANATION = (
-    "Decides on the MIR: (1) the lifecycle set cannot hold duplicates (guarded add / remove-then-add / set type); (2) the set "
+    "Decides on the MIR: (1) the lifecycle set cannot hold duplicates (guarded add / remove-then-add / set type), and a token "
+    "that is not listed is always added (the only way past the add is the 'found' edge of a search of the list itself); (2) the set "
     "follows the registration state on every exit of DispatcherInner::register/unregister, error exits included, and its removal "
     "drops exactly the entries equal to the token; (3) protocol order before_sleep-region < poll < before_handle_events-region < "
     "batch loop, every path from the poll's success edge to a return enters the before_handle_events region, and inside each "
